@@ -27,6 +27,16 @@ Theorem C01_parse_never_crashes :
     end.
 Proof. exact parse_never_crashes. Qed.
 
+(** Totality: a program, or an error that renders.  The parser's fuel (40 * tokens + 40) always
+    suffices because every loop of the parser consumes a token per iteration and the descent
+    through the precedence ladder is bounded; in particular a token in an unexpected position
+    (a stray `else`) cannot make the top-level loop spin. *)
+Theorem C01_parse_total :
+  forall prof src, byte_len src < u32_limit ->
+    (exists p, parse prof src = ParseOk p) \/
+    (exists e text, parse prof src = ParseErr e /\ parse_error_display e = Ok text).
+Proof. exact parse_total. Qed.
+
 (** the same at the level of the parser alone: over any token list that consists of ordered slices of
     the buffer (the only facts about the lexer the parser's unwraps rely on), for any fuel *)
 Theorem C01_parser_safe_on_wellformed_tokens :
@@ -43,4 +53,5 @@ Proof. vm_compute. repeat split; exact I. Qed.
 
 Print Assumptions C01_lex_total.
 Print Assumptions C01_parse_never_crashes.
+Print Assumptions C01_parse_total.
 Print Assumptions C01_parser_safe_on_wellformed_tokens.
